@@ -203,6 +203,9 @@ BindingBodies ==
                                                       e \in {Bin("+", Var("a"), Var("b")), Bin("-", Var("c"), Var("a")), Var("b")}}
   \cup {Let("b", SetL(<<Num(1), Num(2)>>), MapD(Var("b"), Bin("+", Dot, Var("a"))))}
   \cup {Arrow(Bin("+", Var("a"), Num(1)), "b", e) : e \in Small}
+  \* a binding nobody reads is still evaluated: wildcard and unused binders over succeeding and failing values
+  \cup {Let(x, v, e) : x \in {"_", "b"}, v \in {Num(1), Fail, Var("a")}, e \in {Num(1), Var("a")}}
+  \cup {Arrow(v, x, e) : x \in {"_", "b"}, v \in {Fail, Var("a")}, e \in {Num(1), Var("a")}}
 CollBodies ==
   {ArrL(<<x, y>>) : x \in Atoms, y \in Atoms} \cup {ArrL(<<x>>) : x \in Atoms} \cup {ArrL(<<Bin("+", Var("a"), Num(1)), ArrL(<<Num(1)>>)>>)}
   \cup {MapD(s, b) : s \in {SetL(<<Num(1), Num(2), Var("a")>>), SetL(<<>>)}, b \in {Dot, Bin("+", Dot, Var("a")), Bin("*", Dot, Dot), Num(1), ArrL(<<Dot>>)}}
